@@ -623,6 +623,14 @@ func checkPostOnConcrete(p *Program, r *oblResult, fn *ssa.Function, args []conc
 			return "unknown", "the clause reads heap component " + k + ", which the replay harness does not observe"
 		}
 	}
+	// A clause that goes through an uninterpreted function (a bodiless spec function, or the substring /
+	// split abstractions of the string model) has no concrete value here: the solver is free to pick one that
+	// falsifies it, which would "reproduce" anything.
+	for _, u := range []string{"(sf_", "(scontains ", "(sfirst ", "(strimprefix "} {
+		if strings.Contains(t, u) {
+			return "unknown", "the clause is stated through the uninterpreted function " + strings.TrimSpace(u[1:]) + ", which has no concrete value in a replay"
+		}
+	}
 	obsJSON, _ := json.Marshal(observed)
 	// is the clause false on this concrete I/O for some admissible ghost?  (sat of ¬clause)
 	neg := &Obligation{Name: "replay-eval", NAssume: len(ctx.assumes), Reach: "true", Cond: t, ctx: ctx}
